@@ -21,7 +21,15 @@
      and batches are not wrapped; snapshots are.
    - fallible.Fallible: Put, Close and Drop decrement the counter and panic when it drops below 0;
      Delete and batches are not counted.
-   - devnulldb: accepts and forgets everything.  cachedproducer.StoreWithFn: forwards all data ops.
+   - devnulldb: accepts and forgets everything (its batch, too).
+   - cachedproducer: the store returned by OpenDB forwards all data ops; Close goes through the
+     producer's reference count (refs > 1: just decrement; refs = 1: really close below; refs = 0:
+     error "called Close more times than OpenDB"), Drop through its drop-once flag (set again by every
+     OpenDB); [WCached refs notDropped u].
+   - [WMem m closed] is the REAL memorydb as base (flushable over devnull): Close empties it and
+     closes; when closed Get/Has/Close/Batch.Write answer errClosed, an iterator is empty, Put/Delete/
+     GetSnapshot panic (nil tree), Drop works; Drop of an OPEN memorydb panics ("close db first").
+     [WBase m] is the harness's double of it: Close is a no-op and Drop empties it.
    Every NewBatch reaches the base's own batch (through readonly wrappers): a batch write bypasses
    buffers, counters and the error double.  Definitions only. *)
 From Coq Require Import NArith ZArith List Bool.
@@ -34,9 +42,12 @@ Arguments ROk {A} a. Arguments RErr {A} e. Arguments RPanic {A}.
 
 Definition E_UNSUPPORTED : N := 1.    (* kvdb.ErrUnsupportedOp *)
 Definition E_NOTFOUND : N := 2.       (* nokeyiserr.errNotFound ("not found") *)
+Definition E_CLOSEMORE : N := 5.      (* cachedproducer: "called Close more times than OpenDB" *)
+Definition E_CLOSED : N := 6.         (* flushable.errClosed ("database closed") *)
 
 Inductive wst :=
 | WBase (m : kvmap)
+| WMem (m : kvmap) (closed : bool)
 | WNull
 | WErr (bad : key) (e : N) (u : wst)
 | WBatched (pend : list wop) (u : wst)
@@ -45,7 +56,7 @@ Inductive wst :=
 | WRO (u : wst)
 | WSkipErr (listed : list N) (u : wst)
 | WFall (n : Z) (u : wst)
-| WCached (u : wst).
+| WCached (refs : N) (notDropped : bool) (u : wst).
 
 Fixpoint nmemb (e : N) (l : list N) : bool :=
   match l with [] => false | x :: t => (x =? e) || nmemb e t end.
@@ -54,6 +65,7 @@ Fixpoint nmemb (e : N) (l : list N) : bool :=
 Fixpoint wget (s : wst) (k : key) : res (option val) :=
   match s with
   | WBase m => ROk (kv_get m k)
+  | WMem m c => if c then RErr E_CLOSED else ROk (kv_get m k)
   | WNull => ROk None
   | WErr bad e u => if has_prefix bad k then RErr e else wget u k
   | WBatched _ u => wget u k
@@ -62,12 +74,13 @@ Fixpoint wget (s : wst) (k : key) : res (option val) :=
   | WRO u => wget u k
   | WSkipErr l u => match wget u k with RErr e => if nmemb e l then ROk None else RErr e | r => r end
   | WFall _ u => wget u k
-  | WCached u => wget u k
+  | WCached _ _ u => wget u k
   end.
 
 Fixpoint whas (s : wst) (k : key) : res bool :=
   match s with
   | WBase m => ROk (kv_has m k)
+  | WMem m c => if c then RErr E_CLOSED else ROk (kv_has m k)
   | WNull => ROk false
   | WErr bad e u => if has_prefix bad k then RErr e else whas u k
   | WBatched _ u => whas u k
@@ -76,52 +89,63 @@ Fixpoint whas (s : wst) (k : key) : res bool :=
   | WRO u => whas u k
   | WSkipErr l u => match whas u k with RErr e => if nmemb e l then ROk false else RErr e | r => r end
   | WFall _ u => whas u k
-  | WCached u => whas u k
+  | WCached _ _ u => whas u k
   end.
 
 (* a fully drained NewIterator(prefix, start) *)
 Fixpoint witer (s : wst) (p st : key) : list (key * val) :=
   match s with
   | WBase m => kv_iterate m p st
+  | WMem m c => if c then [] else kv_iterate m p st
   | WNull => []
   | WSkip q u => filter (fun kv => negb (has_prefix q (fst kv))) (witer u p st)
-  | WErr _ _ u | WBatched _ u | WNoKey u | WRO u | WSkipErr _ u | WFall _ u | WCached u => witer u p st
+  | WErr _ _ u | WBatched _ u | WNoKey u | WRO u | WSkipErr _ u | WFall _ u | WCached _ _ u => witer u p st
   end.
 
 (* GetSnapshot: the frozen reader a snapshot taken at the top is (which layers still act on it) *)
 Fixpoint wsnap (s : wst) : wst :=
   match s with
   | WBase m => WBase m
+  | WMem m _ => WBase m
   | WNull => WNull
   | WErr bad e u => WErr bad e (wsnap u)
   | WNoKey u => WNoKey (wsnap u)
   | WSkipErr l u => WSkipErr l (wsnap u)
-  | WBatched _ u | WSkip _ u | WRO u | WFall _ u | WCached u => wsnap u
+  | WBatched _ u | WSkip _ u | WRO u | WFall _ u | WCached _ _ u => wsnap u
   end.
 
 (* ---------- the base, reached by every batch *)
 Fixpoint has_ro (s : wst) : bool :=
   match s with
-  | WBase _ | WNull => false
+  | WBase _ | WMem _ _ | WNull => false
   | WRO _ => true
-  | WErr _ _ u | WBatched _ u | WSkip _ u | WNoKey u | WSkipErr _ u | WFall _ u | WCached u => has_ro u
+  | WErr _ _ u | WBatched _ u | WSkip _ u | WNoKey u | WSkipErr _ u | WFall _ u | WCached _ _ u => has_ro u
   end.
 Fixpoint is_null (s : wst) : bool :=
   match s with
-  | WBase _ => false
+  | WBase _ | WMem _ _ => false
   | WNull => true
-  | WErr _ _ u | WBatched _ u | WSkip _ u | WNoKey u | WRO u | WSkipErr _ u | WFall _ u | WCached u => is_null u
+  | WErr _ _ u | WBatched _ u | WSkip _ u | WNoKey u | WRO u | WSkipErr _ u | WFall _ u | WCached _ _ u => is_null u
+  end.
+(* the real memorydb at the bottom has been closed *)
+Fixpoint base_closed (s : wst) : bool :=
+  match s with
+  | WBase _ | WNull => false
+  | WMem _ c => c
+  | WErr _ _ u | WBatched _ u | WSkip _ u | WNoKey u | WRO u | WSkipErr _ u | WFall _ u | WCached _ _ u => base_closed u
   end.
 Fixpoint wbase (s : wst) : kvmap :=
   match s with
   | WBase m => m
+  | WMem m c => if c then [] else m
   | WNull => []
-  | WErr _ _ u | WBatched _ u | WSkip _ u | WNoKey u | WRO u | WSkipErr _ u | WFall _ u | WCached u => wbase u
+  | WErr _ _ u | WBatched _ u | WSkip _ u | WNoKey u | WRO u | WSkipErr _ u | WFall _ u | WCached _ _ u => wbase u
   end.
-(* Batch.Write of the base's batch *)
+(* Batch.Write of the base's batch (errClosed and no effect when the memorydb is closed) *)
 Fixpoint wbase_write (s : wst) (ops : list wop) : wst :=
   match s with
   | WBase m => WBase (kv_write m ops)
+  | WMem m c => if c then s else WMem (kv_write m ops) false
   | WNull => WNull
   | WErr b e u => WErr b e (wbase_write u ops)
   | WBatched pd u => WBatched pd (wbase_write u ops)
@@ -130,8 +154,9 @@ Fixpoint wbase_write (s : wst) (ops : list wop) : wst :=
   | WRO u => WRO (wbase_write u ops)
   | WSkipErr l u => WSkipErr l (wbase_write u ops)
   | WFall n u => WFall n (wbase_write u ops)
-  | WCached u => WCached (wbase_write u ops)
+  | WCached r d u => WCached r d (wbase_write u ops)
   end.
+Definition wbase_write_res (s : wst) : res unit := if base_closed s then RErr E_CLOSED else ROk tt.
 
 (* Batch.ValueSize of the base's batch: memorydb counts key+value bytes of a put, key bytes of a
    delete; the harness scales it so that the IdealBatchSize threshold is reachable *)
@@ -156,14 +181,18 @@ Section Scale.
   Fixpoint wwrite (s : wst) (o : wop) : wst * res unit :=
     match s with
     | WBase m => (WBase (kv_apply m o), ROk tt)
+    | WMem m c => if c then (s, RPanic) else (WMem (kv_apply m o) false, ROk tt)
     | WNull => (WNull, ROk tt)
     | WErr bad e u =>
         if has_prefix bad (wop_key o) then (s, RErr e)
         else let '(u', r) := wwrite u o in (WErr bad e u', r)
     | WBatched pend u =>
-        let '(pend1, u1) := b_mayflush pend u in
-        if has_ro u1 then (WBatched pend1 u1, RErr E_UNSUPPORTED)
-        else (WBatched (pend1 ++ [o]) u1, ROk tt)
+        if over_threshold pend u && base_closed u then (s, RErr E_CLOSED)    (* the flush inside MayFlush fails *)
+        else
+          let '(pend1, u1) := b_mayflush pend u in
+          if has_ro u1 then (WBatched pend1 u1, RErr E_UNSUPPORTED)
+          else if is_null u1 then (WBatched pend1 u1, ROk tt)               (* devnulldb's batch forgets *)
+          else (WBatched (pend1 ++ [o]) u1, ROk tt)
     | WSkip p u => let '(u', r) := wwrite u o in (WSkip p u', r)
     | WNoKey u => let '(u', r) := wwrite u o in (WNoKey u', r)
     | WRO u => (s, RErr E_UNSUPPORTED)
@@ -177,7 +206,7 @@ Section Scale.
             else let '(u', r) := wwrite u o in (WFall (n - 1) u', r)
         | WDel _ => let '(u', r) := wwrite u o in (WFall n u', r)
         end
-    | WCached u => let '(u', r) := wwrite u o in (WCached u', r)
+    | WCached rf d u => let '(u', r) := wwrite u o in (WCached rf d u', r)
     end.
 
   (* Close entering at the top.  A batched layer flushes (its batch writes straight to the base) and
@@ -185,9 +214,12 @@ Section Scale.
   Fixpoint wclose_c (s : wst) : wst * res unit * list wop :=
     match s with
     | WBase m => (s, ROk tt, [])
+    | WMem m c => if c then (s, RErr E_CLOSED, []) else (WMem [] true, ROk tt, [])
     | WNull => (s, ROk tt, [])
     | WErr bad e u => let '(u', r, ws) := wclose_c u in (WErr bad e u', r, ws)
-    | WBatched pend u => let '(u', r, ws) := wclose_c u in (WBatched [] u', r, pend ++ ws)
+    | WBatched pend u =>
+        if base_closed u then (s, RErr E_CLOSED, [])        (* Flush fails: the store below is not closed *)
+        else let '(u', r, ws) := wclose_c u in (WBatched [] u', r, pend ++ ws)
     | WSkip p u => let '(u', r, ws) := wclose_c u in (WSkip p u', r, ws)
     | WNoKey u => let '(u', r, ws) := wclose_c u in (WNoKey u', r, ws)
     | WRO u => let '(u', r, ws) := wclose_c u in (WRO u', r, ws)
@@ -197,15 +229,22 @@ Section Scale.
     | WFall n u =>
         if (n - 1 <? 0)%Z then (WFall (n - 1) u, RPanic, [])
         else let '(u', r, ws) := wclose_c u in (WFall (n - 1) u', r, ws)
-    | WCached u => let '(u', r, ws) := wclose_c u in (WCached u', r, ws)
+    | WCached rf d u =>
+        if rf =? 0 then (s, RErr E_CLOSEMORE, [])
+        else if rf =? 1 then let '(u', r, ws) := wclose_c u in (WCached 0 d u', r, ws)
+        else (WCached (rf - 1) d u, ROk tt, [])
     end.
+  (* the collected flushes reach the base before it is closed: for the real memorydb they are
+     gone with the rest (Close empties it), for the double they stay *)
   Definition wclose (s : wst) : wst * res unit :=
     let '(s', r, ws) := wclose_c s in (wbase_write s' ws, r).
 
-  (* Drop entering at the top: reaches the base (through readonly, too) unless fallible panics *)
+  (* Drop entering at the top: reaches the base (through readonly, too) unless fallible panics or
+     the cached producer has dropped already *)
   Fixpoint wdrop (s : wst) : wst * res unit :=
     match s with
     | WBase m => (WBase [], ROk tt)
+    | WMem m c => if c then (WMem [] true, ROk tt) else (s, RPanic)       (* "close db first" *)
     | WNull => (s, ROk tt)
     | WErr bad e u => let '(u', r) := wdrop u in (WErr bad e u', r)
     | WBatched pend u => let '(u', r) := wdrop u in (WBatched pend u', r)
@@ -216,16 +255,27 @@ Section Scale.
     | WFall n u =>
         if (n - 1 <? 0)%Z then (WFall (n - 1) u, RPanic)
         else let '(u', r) := wdrop u in (WFall (n - 1) u', r)
-    | WCached u => let '(u', r) := wdrop u in (WCached u', r)
+    | WCached rf d u =>
+        if d then let '(u', r) := wdrop u in (WCached rf false u', r) else (s, ROk tt)
     end.
 
   (* operations addressed to the layer at depth d (0 = top) *)
+  Definition wsub (s : wst) : option wst :=
+    match s with
+    | WBase _ | WMem _ _ | WNull => None
+    | WErr _ _ u | WBatched _ u | WSkip _ u | WNoKey u | WRO u | WSkipErr _ u | WFall _ u | WCached _ _ u => Some u
+    end.
+  Fixpoint wfind (d : nat) (s : wst) : option wst :=
+    match d with
+    | O => Some s
+    | S d' => match wsub s with Some u => wfind d' u | None => None end
+    end.
   Fixpoint wat (d : nat) (f : wst -> wst) (s : wst) : wst :=
     match d with
     | O => f s
     | S d' =>
         match s with
-        | WBase _ | WNull => s
+        | WBase _ | WMem _ _ | WNull => s
         | WErr b e u => WErr b e (wat d' f u)
         | WBatched pd u => WBatched pd (wat d' f u)
         | WSkip p u => WSkip p (wat d' f u)
@@ -233,15 +283,29 @@ Section Scale.
         | WRO u => WRO (wat d' f u)
         | WSkipErr l u => WSkipErr l (wat d' f u)
         | WFall n u => WFall n (wat d' f u)
-        | WCached u => WCached (wat d' f u)
+        | WCached r dd u => WCached r dd (wat d' f u)
         end
     end.
+  (* batched.Store: Flush = Write + Reset (nothing happens when the write fails), MayFlush, Write, Reset *)
   Definition l_flush (s : wst) : wst :=
-    match s with WBatched pend u => WBatched [] (wbase_write u pend) | _ => s end.
+    match s with
+    | WBatched pend u => if base_closed u then s else WBatched [] (wbase_write u pend)
+    | _ => s
+    end.
   Definition l_mayflush (s : wst) : wst :=
-    match s with WBatched pend u => let '(p1, u1) := b_mayflush pend u in WBatched p1 u1 | _ => s end.
+    match s with
+    | WBatched pend u => if over_threshold pend u then l_flush s else s
+    | _ => s
+    end.
+  Definition l_write (s : wst) : wst :=
+    match s with WBatched pend u => WBatched pend (wbase_write u pend) | _ => s end.
+  Definition l_reset (s : wst) : wst :=
+    match s with WBatched _ u => WBatched [] u | _ => s end.
   Definition l_setcount (n : Z) (s : wst) : wst :=
     match s with WFall _ u => WFall n u | _ => s end.
+  (* another OpenDB of the same name on the cached producer *)
+  Definition l_reopen (s : wst) : wst :=
+    match s with WCached r _ u => WCached (r + 1) true u | _ => s end.
 
   (* ---------- histories *)
   Inductive xop :=
@@ -261,7 +325,12 @@ Section Scale.
   | XSIter (i : nat) (p st : key)
   | XFlush (d : nat)                (* batched.Store.Flush of the layer at depth d *)
   | XMayFlush (d : nat)
+  | XLWrite (d : nat)               (* batched.Store.Write *)
+  | XLReset (d : nat)               (* batched.Store.Reset *)
+  | XLReplay (d : nat)              (* batched.Store.Replay into a recording writer *)
   | XSetCount (d : nat) (n : Z)     (* fallible.SetWriteCount *)
+  | XGetCount (d : nat)             (* fallible.GetWriteCount *)
+  | XReopen (d : nat)               (* cachedproducer: OpenDB of the same name again *)
   | XClose
   | XDrop.
 
@@ -270,16 +339,17 @@ Section Scale.
   | BVal (r : res (option val))
   | BBool (r : res bool)
   | BList (l : list (key * val))
-  | BEnd (r : res unit) (base : kvmap)   (* after Close / Drop: the result and the base store's contents *)
+  | BOps (l : list wop)
+  | BCount (n : Z)
+  | BEnd (r : res unit) (base : kvmap)   (* Close / Drop: the result and the base store's contents *)
   | BNone.
 
   Record xstate := mkX {
     x_st : wst;
     x_batches : list (option (list wop));
-    x_snaps : list (option wst);
-    x_dead : bool                         (* after Close / Drop nothing more is done *)
+    x_snaps : list (option wst)
   }.
-  Definition x_init (s : wst) : xstate := mkX s [] [] false.
+  Definition x_init (s : wst) : xstate := mkX s [] [].
 
   Fixpoint set_nth {A} (n : nat) (x : A) (d : A) (l : list A) : list A :=
     match n, l with
@@ -291,48 +361,61 @@ Section Scale.
   Definition get_slot {A} (n : nat) (l : list (option A)) : option A := nth n l None.
 
   Definition xstep (x : xstate) (o : xop) : xstate * xobs :=
-    if x_dead x then (x, BNone) else
     let s := x_st x in
     match o with
-    | XPut k v => let '(s', r) := wwrite s (WPut k v) in (mkX s' (x_batches x) (x_snaps x) false, BUnit r)
-    | XDel k => let '(s', r) := wwrite s (WDel k) in (mkX s' (x_batches x) (x_snaps x) false, BUnit r)
+    | XPut k v => let '(s', r) := wwrite s (WPut k v) in (mkX s' (x_batches x) (x_snaps x), BUnit r)
+    | XDel k => let '(s', r) := wwrite s (WDel k) in (mkX s' (x_batches x) (x_snaps x), BUnit r)
     | XGet k => (x, BVal (wget s k))
     | XHas k => (x, BBool (whas s k))
     | XIter p st => (x, BList (witer s p st))
-    | XBNew b => (mkX s (set_nth b (Some []) None (x_batches x)) (x_snaps x) false, BUnit (ROk tt))
+    | XBNew b => (mkX s (set_nth b (Some []) None (x_batches x)) (x_snaps x), BUnit (ROk tt))
     | XBPut b k v =>
         match get_slot b (x_batches x) with
         | None => (x, BNone)
         | Some ops =>
             if has_ro s then (x, BUnit (RErr E_UNSUPPORTED))
-            else (mkX s (set_nth b (Some (ops ++ [WPut k v])) None (x_batches x)) (x_snaps x) false, BUnit (ROk tt))
+            else if is_null s then (x, BUnit (ROk tt))
+            else (mkX s (set_nth b (Some (ops ++ [WPut k v])) None (x_batches x)) (x_snaps x), BUnit (ROk tt))
         end
     | XBDel b k =>
         match get_slot b (x_batches x) with
         | None => (x, BNone)
         | Some ops =>
             if has_ro s then (x, BUnit (RErr E_UNSUPPORTED))
-            else (mkX s (set_nth b (Some (ops ++ [WDel k])) None (x_batches x)) (x_snaps x) false, BUnit (ROk tt))
+            else if is_null s then (x, BUnit (ROk tt))
+            else (mkX s (set_nth b (Some (ops ++ [WDel k])) None (x_batches x)) (x_snaps x), BUnit (ROk tt))
         end
     | XBWrite b =>
         match get_slot b (x_batches x) with
         | None => (x, BNone)
-        | Some ops => (mkX (wbase_write s ops) (x_batches x) (x_snaps x) false, BUnit (ROk tt))
+        | Some ops => (mkX (wbase_write s ops) (x_batches x) (x_snaps x), BUnit (wbase_write_res s))
         end
     | XBReset b =>
         match get_slot b (x_batches x) with
         | None => (x, BNone)
-        | Some _ => (mkX s (set_nth b (Some []) None (x_batches x)) (x_snaps x) false, BUnit (ROk tt))
+        | Some _ => (mkX s (set_nth b (Some []) None (x_batches x)) (x_snaps x), BUnit (ROk tt))
         end
-    | XSnap i => (mkX s (x_batches x) (set_nth i (Some (wsnap s)) None (x_snaps x)) false, BUnit (ROk tt))
+    | XSnap i =>
+        if base_closed s then (x, BUnit RPanic)
+        else (mkX s (x_batches x) (set_nth i (Some (wsnap s)) None (x_snaps x)), BUnit (ROk tt))
     | XSGet i k => match get_slot i (x_snaps x) with Some sn => (x, BVal (wget sn k)) | None => (x, BNone) end
     | XSHas i k => match get_slot i (x_snaps x) with Some sn => (x, BBool (whas sn k)) | None => (x, BNone) end
     | XSIter i p st => match get_slot i (x_snaps x) with Some sn => (x, BList (witer sn p st)) | None => (x, BNone) end
-    | XFlush d => (mkX (wat d l_flush s) (x_batches x) (x_snaps x) false, BUnit (ROk tt))
-    | XMayFlush d => (mkX (wat d l_mayflush s) (x_batches x) (x_snaps x) false, BUnit (ROk tt))
-    | XSetCount d n => (mkX (wat d (l_setcount n) s) (x_batches x) (x_snaps x) false, BUnit (ROk tt))
-    | XClose => let '(s', r) := wclose s in (mkX s' (x_batches x) (x_snaps x) true, BEnd r (wbase s'))
-    | XDrop => let '(s', r) := wdrop s in (mkX s' (x_batches x) (x_snaps x) true, BEnd r (wbase s'))
+    | XFlush d => (mkX (wat d l_flush s) (x_batches x) (x_snaps x), BUnit (ROk tt))
+    | XMayFlush d => (mkX (wat d l_mayflush s) (x_batches x) (x_snaps x), BUnit (ROk tt))
+    | XLWrite d =>
+        match wfind d s with
+        | Some (WBatched _ u) => (mkX (wat d l_write s) (x_batches x) (x_snaps x), BUnit (wbase_write_res u))
+        | _ => (x, BNone)
+        end
+    | XLReset d => (mkX (wat d l_reset s) (x_batches x) (x_snaps x), BUnit (ROk tt))
+    | XLReplay d =>
+        match wfind d s with Some (WBatched pend _) => (x, BOps pend) | _ => (x, BNone) end
+    | XSetCount d n => (mkX (wat d (l_setcount n) s) (x_batches x) (x_snaps x), BUnit (ROk tt))
+    | XGetCount d => match wfind d s with Some (WFall n _) => (x, BCount n) | _ => (x, BNone) end
+    | XReopen d => (mkX (wat d l_reopen s) (x_batches x) (x_snaps x), BUnit (ROk tt))
+    | XClose => let '(s', r) := wclose s in (mkX s' (x_batches x) (x_snaps x), BEnd r (wbase s'))
+    | XDrop => let '(s', r) := wdrop s in (mkX s' (x_batches x) (x_snaps x), BEnd r (wbase s'))
     end.
 
   Fixpoint xrun (x : xstate) (ops : list xop) : list xobs :=
